@@ -9,6 +9,8 @@
   d  C14 earlier-page-execution-completes-later-page-fetch
   e  C15 next-page-fetch-has-no-timeout
   f  C14 timeout-error-after-completion
+  g  C14 response-dropped-after-another-requests-timeout (a scripted schedule: the timeout of request 1 fires between the two
+     assignments `self._connection = connection` (in _query) and `self._req_id = req_id` (in send_request) of its retry)
 Each prints what the user callbacks saw and exits 1 if the defect shows (0 if the tree behaves).
 """
 import os
@@ -239,6 +241,89 @@ def repro_f():
     return len(seen) != 1
 
 
+class TriggerChooser(object):
+    """Deterministic schedule: option 0 everywhere, except that while armed the executor thread is kept running with a
+    preemption point at every opportunity until ``when()`` holds; at that point virtual time jumps to the next deadline."""
+    def __init__(self):
+        self.world = None
+        self.when = None
+        self.fired = False
+        self.log = []
+
+    def choose(self, kind, options):
+        i = 0
+        if self.when is not None and not self.fired and kind == 'run':
+            if self.when() and options[-1] == '<time>':
+                self.fired = True
+                i = len(options) - 1
+            else:
+                for k, o in enumerate(options):
+                    if str(o).startswith('exec'):
+                        i = k
+                        break
+        self.log.append(i)
+        return i
+
+    def flip(self, kind, p=None):
+        if self.when is not None and not self.fired:
+            cur = self.world.cur()
+            return cur is not None and cur.name.startswith('exec')
+        return False
+
+
+def repro_g():
+    from sim.env import SimEnv
+    from sim import s1_req as R
+    from cassandra.cluster import ExecutionProfile, EXEC_PROFILE_DEFAULT
+    from cassandra.policies import RoundRobinPolicy
+    from cassandra.query import SimpleStatement
+    random.seed(1)
+    ch = TriggerChooser()
+    env = SimEnv(ch, addresses=['127.0.0.1', '127.0.0.2'])
+    ch.world = env.world
+    plan = R.ReqPlan(env.world)
+    for n in env.net.nodes.values():
+        n.behaviour = plan.behaviour
+    seen1, seen2 = [], []
+    with env:
+        w = env.world
+        cluster = env.cluster(execution_profiles={EXEC_PROFILE_DEFAULT: ExecutionProfile(load_balancing_policy=RoundRobinPolicy(), request_timeout=1.0)})
+        session = cluster.connect()
+        w.settle(advance=False)
+        plan.set_page(2, 0, ['hold'])                                   # request 2: answered at 1.2 s, its timeout is 10 s
+        plan.set_page(1, 0, [R.held_err('unavailable'), 'hold'])        # request 1: Unavailable -> default policy retries on the next host
+        f2 = session.execute_async(SimpleStatement(R.uid_query(2)), timeout=10.0)
+        f2.add_callbacks(*log_to(seen2, w))
+        f1 = session.execute_async(SimpleStatement(R.uid_query(1)))
+        f1.add_callbacks(*log_to(seen1, w))
+        w.settle(advance=False)
+        m2 = [a for a in plan.arrivals if a['uid'] == 2][0]
+        m1 = [a for a in plan.arrivals if a['uid'] == 1][0]
+        print("g) request 2 waits on conn%d stream %d (node %s); request 1 first went to conn%d stream %d (node %s)" % (
+            m2['conn'], m2['stream'], m2['node'], m1['conn'], m1['stream'], m1['node']))
+        conn2 = env.net.conns[m2['conn']]
+        ch.when = lambda: f1._connection is conn2 and f1._req_id == m1['stream']
+        [h for h in env.net.held if h.req.get('_s1_uid') == 1][0].release()      # Unavailable for request 1 -> retry task on the executor
+        w.advance_to(1.1)
+        w.settle(advance=False)
+        print("   schedule trigger fired: %s; request 1 retried on conn%d stream %d; orphaned stream ids on conn%d: %r" % (
+            ch.fired, [a for a in plan.arrivals if a['uid'] == 1][-1]['conn'], [a for a in plan.arrivals if a['uid'] == 1][-1]['stream'],
+            m2['conn'], sorted(conn2.orphaned_request_ids)))
+        w.advance_to(1.2)
+        [h for h in env.net.held if h.req.get('_s1_uid') == 2][0].release()      # the answer to request 2 arrives, well inside its 10 s
+        w.advance_to(2.0)
+        w.settle(advance=False)
+        n2 = len(seen2)
+        w.advance_to(10.5)
+        w.settle(advance=False)
+        cluster.shutdown()
+        w.settle()
+    show("   request 1 (timeout 1.0 s) saw:", seen1)
+    print("   request 2 (timeout 10 s, answered by the node at 1.2 s) had %d outcomes at t=2.0; finally:" % n2)
+    show("", seen2)
+    return n2 != 1
+
+
 def main():
     args = [a for a in sys.argv[1:] if not a.startswith('--')]
     repo = '/repo'
@@ -247,7 +332,7 @@ def main():
         args = [a for a in args if a != repo]
     _setup(repo)
     bad = 0
-    for k in (args or ['a', 'b', 'c', 'd', 'e', 'f']):
+    for k in (args or ['a', 'b', 'c', 'd', 'e', 'f', 'g']):
         r = globals()['repro_' + k]()
         print("   -> %s" % ("DEFECT SHOWS" if r else "behaves"))
         bad += bool(r)
